@@ -166,12 +166,16 @@ Exit ==
 
 \* update_defaults(new): remember the defaults; the configuration follows them
 \* except where the user has set something else
-AmbiguousFor(new) ==
-  {q \in LeafPaths(new) : q \in DOMAIN store /\ q \in user
-                           /\ q \in DOMAIN dflt /\ dflt[q] = store[q]}
-MustKeep(new) ==
-  {q \in LeafPaths(new) : q \in DOMAIN store /\ q \in user
-                           /\ ~(q \in DOMAIN dflt /\ dflt[q] = store[q])}
+\* A leaf that exists already:
+\*   never set by the user and still equal to the default in force  -> must follow the new default
+\*   set by the user to something else than the default in force    -> must be kept
+\*   anything else (set by the user to the very default; or a value that is neither the user's
+\*   nor the default in force, e.g. restored by a with-block exit after the defaults moved on)
+\*   -> the property is silent: either outcome
+EqDefault(q) == q \in DOMAIN dflt /\ dflt[q] = store[q]
+MustFollow(new) == {q \in LeafPaths(new) : q \in DOMAIN store /\ q \notin user /\ EqDefault(q)}
+MustKeep(new)   == {q \in LeafPaths(new) : q \in DOMAIN store /\ q \in user /\ ~EqDefault(q)}
+AmbiguousFor(new) == {q \in LeafPaths(new) : q \in DOMAIN store} \ (MustFollow(new) \cup MustKeep(new))
 UpdateDefaults(new) ==
   /\ WellFormed(new) /\ Compatible(dflt, new) /\ Compatible(store, new)
   /\ dflt' = Merge(dflt, new)
